@@ -67,10 +67,17 @@ def configs(tier):
     symh = mk("sym-hetero", "triangle", 2, [["sym", [P1, P3, P2]], P1], (1, 2), [(1, 0)], ops=("indexed", "pow", "grad", "prod", "sum", "list"), ascoded="fails")
     # the degree rules against polynomial arithmetic (CQ's range: low degrees, depth 2)
     poly = mk("flat-poly", "triangle", 2, [["mixed", [["vecP", 1, 2], P2]]], (1,), [(1, 0)], poly=True, polymax=5, idx=(10,), ops=small)
+    # symmetric elements whose sub-elements are VECTOR valued and of different degrees: physical shape
+    # (2, 2, 2), component (i, j, c) = component c of sub-element symmetry[(i, j)]; the reference value
+    # is the concatenation of the sub-elements' (size 2 each), so a sub-element INDEX and an offset into
+    # the reference value are different things
+    V1, V2, V3 = ["vecP", 1, 2], ["vecP", 2, 2], ["vecP", 3, 2]
+    symv = mk("sym-vector-subs", "triangle", 2, [["sym", [V1, V3, V2]], P1], (1,), [(2, 0)], coords=(), idx=(10,), ops=("indexed", "pow", "grad", "prod", "sum"), ascoded="fails")
     if tier == "quick":
         # (few, small TLC runs: on the shared machine a JVM start costs seconds)
         return [
             imm,
+            symv,
             # symmetric element with different sub-element degrees + nested mixed element, low degrees:
             # also validates the degree rules by polynomial arithmetic (CQ's range)
             mk("sym-nested-poly", "triangle", 2, [["sym", [P1, P2, P1]], ["mixed", [["mixed", [["vecP", 1, 2], P1]], P2]]], (1, 2), [(1, 0), (2, 1)], coords=(), idx=(10,), ops=("indexed", "pow", "grad", "prod", "sum", "list", "inner"), poly=True, polymax=5, ascoded="fails"),
@@ -87,6 +94,14 @@ def configs(tier):
         # interval in R and in R^2, tetrahedron
         mk("interval", "interval", 1, [["mixed", [["RT", 2], P1, ["vecP", 3, 2]]], P2], (1, 2), [(1, 0)], coords=("x", "X")),
         mk("interval-immersed", "interval", 2, [["mixed", [["RT", 3], P1]], ["mixed", [P2, ["N1", 1]]]], (1, 2), [(2, 0)], ascoded="fails"),
+        # symmetric elements with vector valued sub-elements, as coefficient and as argument, with a
+        # permuted symmetry map next to the usual one
+        dict(symv, elems=[["sym", [V1, V3, V2]], ["sym", [V2, V1, V3], [2, 2], [2, 0, 0, 1]]], coef=[1, 2], args=[[1, 0]], idx=[10, 11], ops=list(small) + ["dot"]),
+        # ... with Piola mapped sub-elements on the immersed triangle (physical shape (2, 2, 3), reference sizes 2)
+        mk("sym-piola-subs-immersed", "triangle", 3, [["sym", [["RT", 1], ["RT", 3], ["N1", 2]]], P1], (1,), [(2, 0)], coords=(), idx=(10,), ops=("indexed", "pow", "grad", "prod", "sum", "list"), ascoded="fails"),
+        # a symmetric element INSIDE a mixed element (4 physical / 3 reference components on a flat mesh) and
+        # mixed elements inside a symmetric element; a block of rank 1 without any symmetry
+        mk("sym-in-mixed-in-sym", "triangle", 2, [["mixed", [["sym", [P2, P3, P2]], P1]], ["sym", [["mixed", [P1, P2]], ["mixed", [P3, P1]], ["mixed", [P2, P2]]]], ["sym", [V2, V1], [2], [0, 1]]], (1, 2, 3), [(1, 0)], coords=(), idx=(10,), ops=("indexed", "pow", "grad", "prod", "sum", "list"), ascoded="fails"),
         mk("tetrahedron", "tetrahedron", 3, [["mixed", [["RT", 2], P1, ["N1", 3]]], ["sym", [P2, P2, P2]]], (1, 2), [(1, 0)], ops=small + ("ctensor", "dot")),
     ]
 
@@ -102,7 +117,40 @@ def tla_elem(s):
     if k == "mixed":
         return "Mixed(<<" + ", ".join(tla_elem(x) for x in s[1]) + ">>)"
     if k == "sym":
-        return "Sym(<<" + ", ".join(tla_elem(x) for x in s[1]) + ">>)"
+        subs, bshape, smap = sym_parts(s)
+        return "SymG(<<" + ", ".join(map(str, bshape)) + ">>, <<" + ", ".join(str(m + 1) for m in smap) + ">>, <<" + ", ".join(tla_elem(x) for x in subs) + ">>)"
+    raise MachineryError(f"element spec {s}")
+
+
+def sym_parts(s):
+    """["sym", subs] (the symmetric 2x2 tensor of three sub-elements) or ["sym", subs, block shape,
+    row-major list of 0-based sub-element indices] -> (subs, block shape, map)."""
+    if len(s) == 2:
+        return s[1], [2, 2], [0, 1, 1, 2]
+    return s[1], s[2], s[3]
+
+
+def flat_of(comp, shape):
+    f = 0
+    for c, n in zip(comp, shape):
+        f = f * n + c
+    return f
+
+
+def phys_shape(s, gdim):
+    """Physical value shape of an element spec (compared with ufl_shape of the real terminals)."""
+    k = s[0]
+    if k == "P":
+        return []
+    if k == "vecP":
+        return [s[2]]
+    if k in ("RT", "N1"):
+        return [gdim]
+    if k == "mixed":
+        return [len(comp_degrees(s, gdim))]
+    if k == "sym":
+        subs, bshape, _ = sym_parts(s)
+        return list(bshape) + phys_shape(subs[0], gdim)
     raise MachineryError(f"element spec {s}")
 
 
@@ -383,8 +431,8 @@ def comp_degrees(s, gdim):
     if k == "mixed":
         return [d for x in s[1] for d in comp_degrees(x, gdim)]  # physical components are concatenated
     if k == "sym":
-        d = [comp_degrees(x, gdim)[0] for x in s[1]]
-        return [d[0], d[1], d[1], d[2]]
+        subs, _, smap = sym_parts(s)  # block b IS sub-element smap[b]
+        return [d for m in smap for d in comp_degrees(subs[m], gdim)]
     raise MachineryError(f"element spec {s}")
 
 
@@ -428,7 +476,9 @@ class Env:
             if k == "mixed":
                 return MixedElement([make(x) for x in s[1]])
             if k == "sym":
-                return SymmetricElement({(0, 0): 0, (0, 1): 1, (1, 0): 1, (1, 1): 2}, [make(x) for x in s[1]])
+                subs, bshape, smap = sym_parts(s)
+                blocks = itertools.product(*[range(n) for n in bshape])
+                return SymmetricElement(dict(zip(blocks, smap)), [make(x) for x in subs])
             raise MachineryError(f"element spec {s}")
 
         self.elems = [make(s) for s in cfg["elems"]]
@@ -467,8 +517,8 @@ class Env:
             size = 1
             for s in shape:
                 size *= s
-            if len(polys) != size or len(degs) != size:
-                raise MachineryError(f"{cfg['name']}: element {spec} has physical shape {shape} on the real space but {len(degs)} components in the model")
+            if len(polys) != size or len(degs) != size or list(shape) != phys_shape(spec, self.gdim):
+                raise MachineryError(f"{cfg['name']}: element {spec} has physical shape {shape} on the real space but shape {phys_shape(spec, self.gdim)} / {len(degs)} components in the model")
             if [p_deg(p) for p in polys] != degs:
                 raise MachineryError(f"{cfg['name']}: the member of {spec} is not generic: degrees {[p_deg(p) for p in polys]} expected {degs}")
             self.tpoly[obj], self.tdeg[obj] = polys, degs
@@ -496,8 +546,9 @@ class Env:
         if k == "mixed":
             return [p for x in s[1] for p in self._phys(x, primes)]
         if k == "sym":
-            q = [self._phys(x, primes)[0] for x in s[1]]
-            return [q[0], q[1], q[1], q[2]]
+            subs, _, smap = sym_parts(s)
+            q = [self._phys(x, primes) for x in subs]  # ONE member per sub-element, shared by its blocks
+            return [p for m in smap for p in q[m]]
         raise MachineryError(f"element spec {s}")
 
     # ---- term -> real expression through the public API ----
@@ -771,6 +822,9 @@ def culprit(e, expr):
                 op = node.ufl_operands[0]
                 el = op.ufl_element()
                 if isinstance(el.pullback, SymmetricPullback):
+                    if any(s.reference_value_size != 1 for s in el.sub_elements):
+                        sizes = [s.reference_value_size for s in el.sub_elements]
+                        return "C18:underestimate:indexed-symmetric-nonscalar-sub-elements", what + f" (symmetric element whose sub-elements are vector / tensor valued, reference value sizes {sizes}: the block part of the component is a sub-element index, not an offset into the reference value)"
                     return "C18:underestimate:indexed-symmetric-flattened-component", what + " (symmetric element: flattened physical component used as sub-element position)"
                 sizes = [(s.reference_value_size, e.ufl.FunctionSpace(e.mesh, s).value_size) for s in el.sub_elements]
                 if any(r != p for r, p in sizes):
@@ -971,7 +1025,7 @@ def coverage_requirements(cfg):
 
 def coverage_seen(cfg, lines):
     seen, roots = set(), set()
-    shape = {n: ((2, 2) if s[0] == "sym" else None) for n, s in enumerate(cfg["elems"], 1)}
+    shape = {n: phys_shape(s, cfg["gdim"]) for n, s in enumerate(cfg["elems"], 1)}
     for line in lines:
         roots.add(line[0][0])
         for node in walk(line[0]):
@@ -984,8 +1038,7 @@ def coverage_seen(cfg, lines):
             if a[0] not in ("coef", "arg"):
                 continue
             mi = node[2][:-1] if g else node[2]
-            flat = mi[0] * 2 + mi[1] if shape[a[1]] else (mi[0] if mi else 0)
-            seen.add((a[1], a[0], flat, g))
+            seen.add((a[1], a[0], flat_of(mi, shape[a[1]]), g))
     return seen, roots
 
 
@@ -1042,10 +1095,15 @@ def run(ctx, args):
             jobs.append(Job("dump:" + c["name"], c, workers=4 if c["depth"] >= 3 else 2))
     jobs.sort(key=lambda j: -((j.cfg["depth"] * 10 + (5 if j.cfg["poly"] else 0)) if j.dump else 100))
     order = sorted(cfgs, key=lambda c: [j.key for j in jobs].index("dump:" + c["name"]))
+    if quick:
+        # all runs fit on the machine at once: the long one (polynomial arithmetic) starts first and is
+        # awaited last, the other pools are conformed while it runs
+        jobs.sort(key=lambda j: 0 if (j.dump and j.cfg["poly"]) else 1 if not j.dump else 2)
+        order.sort(key=lambda c: c["poly"])
     total = Verdict()
     pending = []
     try:
-        with ThreadPoolExecutor(max_workers=3 if quick else 2) as ex:
+        with ThreadPoolExecutor(max_workers=4 if quick else 2) as ex:
             futs = {j.key: ex.submit(j.run) for j in jobs}
             for c in order:
                 # (a) the intended model satisfies every invariant; the as-coded model fails exactly where expected
